@@ -12,7 +12,7 @@ import (
 )
 
 // valid UTF-8 only: encoding/json replaces invalid bytes (not the library's doing)
-var mStrPool = []string{"", "a", "b", "ab", "a\x00", "é", "日本", "<>&", " ", "\"q\"", "a b", " ", "\\", "/", "x/y", "😀", "\t", "null"}
+var mStrPool = []string{"", "a", "b", "ab", "s1", "1", "1s", "a\x00", "é", "日本", "<>&", " ", "\"q\"", "a b", " ", "\\", "/", "x/y", "😀", "\t", "null"}
 var prefixes = []string{"", "/", "/api", "/api/", "https://example.org", "https://example.org/v1/", "x y", "<p>"}
 
 func utf8ify(v any) any {
